@@ -1302,6 +1302,10 @@ class CodeBuilder:
                     alias = ann.name
         if alias is None:
             alias = config.aliases.get(fname)
+        if isinstance(alias, str) and type(alias) is not str:
+            # a member of a str-based enum (or another str subclass): the
+            # key is its text, which is what gets written into the code
+            alias = str.__str__(alias)
         return alias
 
     @typing.no_type_check
